@@ -73,7 +73,13 @@ def check_step(ctx, cls):
         done.add(tag)
         where = f"{f.file}:{ev.line}"
         # the level that receives the solution
-        stores = [e for e in p.events if e.kind == "store_sub" and isinstance(e.data["base"], Arr2) and e.data["value"] is ev.data.get("result")]
+        res = ev.data.get("result")
+
+        def is_solution(v):
+            # the solver's result, or the first element of an (x, info) pair returned by an iterative solver
+            return v is res or (isinstance(v, ExtObj) and v.qual.endswith("[0]") and v.args.get("of") is res)
+
+        stores = [e for e in p.events if e.kind == "store_sub" and isinstance(e.data["base"], Arr2) and is_solution(e.data["value"])]
         arr = stores[0].data["base"] if stores else None
         ok = len(stores) == 1 and isinstance(stores[0].data["index"], Num) and stores[0].data["index"].nf == nf.add(i, nf.ONE)
         ctx.check(ok, "C04-b", q + ":level written", where, "the solution of step i is stored as level i+1", signature="level index", index=str(stores[0].data["index"]) if stores else "none")
